@@ -52,7 +52,7 @@ fn main() {
             ALLOC_CAP.store(1 << 30, std::sync::atomic::Ordering::Relaxed);
             bounded::decoder_child(&n[10..], &tier, seed, &cur, start); std::process::exit(0)
         }
-        n if n.starts_with("child-") => { witnesses::child(&n[6..]); std::process::exit(0) }
+        n if n.starts_with("child-") => { ALLOC_CAP.store(1 << 30, std::sync::atomic::Ordering::Relaxed); witnesses::child(&n[6..]); std::process::exit(0) }
         n if n.starts_with("witness-") => witnesses::run(&n[8..]),
         n if n.starts_with("bounded-") => bounded::run(&n[8..], &tier, seed),
         _ => { eprintln!("unknown check {name}"); std::process::exit(2) }
